@@ -157,7 +157,8 @@ fn run(ctx: &mut Ctx) {
             let wit = J::obj(vec![("prefix_hex", J::hex(&prefix)), ("encode_alone_hex", J::hex(&alone[..alone.len().min(512)]))]);
             let mut want = prefix.clone();
             want.extend_from_slice(&alone);
-            for wk in [Wk::Vec, Wk::Recording] {
+            let presized = Wk::Presized(*ctx.rng.pick(&[4usize, 64, 1500, 66_000]));
+            for wk in [Wk::Vec, Wk::Recording, presized, Wk::Reused] {
                 match exec::encode_items(&prefix, &[item(&v)], wk) {
                     exec::EncOut::Ok(e) => {
                         if e.bytes != want {
